@@ -49,7 +49,7 @@ def gen(c):
             p.case(lines + ['sp.free kind=%s obj=1' % kind], cost=0.6 + ml / 60.0); c.distinct([(kind, 'chunked', rep)])
     # declared output lengths where the 32-bit bit count in the IV crosses each of its bytes (32, 8192, 2^21 bytes), the 2^29 clamp:
     # the IV is all that depends on the declared length, so a short squeeze decides it; one-shot 8192 in the thorough tier
-    for L in (31, 33, 8191, 8192, 8193, 16384, 65536, (1 << 21) - 1, 1 << 21, (1 << 24) + 3, (1 << 29) - 1, 1 << 29, (1 << 29) + 1):
+    for L in [31, 33, 8191, 8192, 8193, 16384, 65536, (1 << 21) - 1, 1 << 21, (1 << 24) + 3, (1 << 28) - 1, 1 << 28, (1 << 28) + (1 << 27) + 5, (1 << 29) - 1, 1 << 29, (1 << 29) + 1] + ([1 << k for k in range(6, 28)] if th else []):
         for kind in ('prf', 'kmac', 'kmaca'):
             re = rng.randrange(2); k = pattern(rng, 16, 'rand')
             ini = lambda r: ('sp.init kind=%s obj=1 re=%d key=%s' % (kind, r, hx(k))) + (' variant=fixed outlen=%d' % L if kind == 'prf' else ' custom=%s outlen=%d' % (hx(pattern(rng, 2)), L))
